@@ -890,6 +890,9 @@ def _eval_world(w, d):
         nontrivial = n_given > 0 and n_gen > 0
         if w.get("schedule"):
             nontrivial = nontrivial and len(probe.forced) > 0
+        if w.get("start_at"):      # -start: the spec names a residue of a partially supplied molecule (else it cannot matter for C04)
+            nontrivial = nontrivial and any("given" in plan[mi] and "gen" in plan[mi] for mi, _ in w["start_at"])
+            info["start_classes"] = sorted({("c" if plan[mi][ri] == "gen" else "b" if ri == 0 else "a") for mi, ri in w["start_at"]})
         info["partial_chain"] = any(0 < p.count("given") < len(p) for p in plan)
     if unit == "c05":
         if mode in ("c", "mc"):
@@ -1182,6 +1185,85 @@ def c04_witness_worlds(seeds):
             if not w["res"] and (w["coords"]["k"], w["coords"]["kmc"]) in C04_WITNESS_PREFIXES]
 
 
+# ---- -start naming a residue of a PARTIALLY SUPPLIED molecule (both tiers).  The statement does not exempt the residue the user asks
+# the building to start from: if its coordinates are supplied they are kept, and the generated residues are still exactly the missing /
+# named ones.  The worlds are ordinary splits (c04_split_worlds) crossed with one -start spec in the format of
+# polyply.src.annotate_ligands.parse_residue_spec, '<molname>-<resname>#<resid>' (every molecule of that name) or
+# '<molname>#<molidx>-<resname>#<resid>' (one molecule); which residue the spec names is written down here, from the description.
+C04_START_CHAINS = ["PA", "L4", "CH5", "L5", "CH6", "MX", "CH7", "C8"]          # 4-8 residues, 1/2/3-atom residues in L4 L5 MX
+C04_START_BRANCHED = ["Y4", "B5", "BR"]                                          # star of 4, branched 5 and 7
+C04_START_RINGS = ["G4", "RG4", "G5", "RG5", "R6", "RG7", "RG8"]                 # rings of 4-8
+C04_START_MULTI = [[["L5", 2]], [["PA", 2]], [["W", 1], ["B5", 1], ["W", 1]], [["CH6", 1], ["N", 2]], [["W", 2], ["G5", 1], ["L4", 1]], [["N", 1], ["RG5", 2]]]
+C04_START_NAMED = ["L5", "B5", "G5"]                                             # -res <one name>: the supplied residues are not a prefix of the molecule
+# quick tier: (system, -res, prefix length k); the molecule that is cut has >= 2 supplied and >= 2 missing residues
+C04_START_QUICK = [([["CH6", 1]], [], 4), ([["BR", 1]], [], 4), ([["RG5", 1]], [], 3), ([["L5", 1]], [], 3), ([["L5", 1]], ["LA"], 3),
+                   ([["W", 1], ["L4", 2]], [], 7)]
+C04_START_CLASSES = {"a": "supplied, not the first residue of its molecule", "b": "the first residue of its molecule (supplied)", "c": "has to be built"}
+
+
+def start_spec(mols, mi, ri, form):
+    """the -start text naming residue ri of molecule mi, and the (molecule, residue) pairs that text names"""
+    t, rn = mols[mi]["type"], mols[mi]["res"][ri][0]
+    if form == "name":
+        return f"{t}-{rn}#{ri + 1}", [[mj, ri] for mj, m in enumerate(mols) if m["type"] == t]
+    return f"{t}#{mi}-{rn}#{ri + 1}", [[mi, ri]]
+
+
+def start_class(plan, mi, ri):
+    if plan[mi][ri] == "gen":
+        return "c"
+    return "b" if ri == 0 else "a"
+
+
+def c04_start_worlds(ml, seeds, configs=None, full=True, both_forms=True, count=None, offset=0):
+    """configs: [(names for -res, prefix length k)], None = every prefix length k >= 1 without -res.  Per config x {-c, -mc}:
+    full: every partially supplied molecule x EVERY residue of it (x both spec forms, or the two forms alternating);
+    not full (quick tier): one residue of each class a / b / c in the last partially supplied molecule, the two forms alternating"""
+    mols = expand(ml)
+    if configs is None:
+        configs = [([], k) for k in range(1, n_coverable(mols, []) + 1)]
+    count = {} if count is None else count
+    out = []
+    for (skip, k) in configs:
+        plan = split_plan(mols, skip, k)
+        targets = [mi for mi, p in enumerate(plan) if "given" in p and "gen" in p]
+        if not full:
+            targets = targets[-1:]
+        for mo, mode in enumerate(("c", "mc")):
+            for mi in targets:
+                n = len(plan[mi])
+                if full and both_forms:
+                    picks = [(ri, f) for ri in range(n) for f in ("name", "idx")]
+                elif full:
+                    picks = [(ri, ("name", "idx")[(ri + k + mo) % 2]) for ri in range(n)]
+                else:
+                    by = {c: [ri for ri in range(n) if start_class(plan, mi, ri) == c] for c in "abc"}
+                    picks = [(by[c][-1 if (mo == 0) == (c == "a") else 0], ("name", "idx")[(mo + ci) % 2]) for ci, c in enumerate("abc") if by[c]]
+                for (ri, form) in picks:
+                    text, at = start_spec(mols, mi, ri, form)
+                    cls = start_class(plan, mi, ri)
+                    count[cls] = count.get(cls, 0) + 1
+                    s = seeds[(k + ri + mo + (form == "idx") + offset) % len(seeds)]
+                    out.append(dict(unit="c04", molecules=ml, seed=s, res=list(skip), coords={"mode": mode, "k": k, "box": C04_BOX}, start=[text], start_at=at))
+    return out
+
+
+def c04_start_family(ctx, seeds):
+    count = {}
+    worlds = []
+    if not ctx.thorough:
+        for ml, skip, k in C04_START_QUICK:
+            worlds += c04_start_worlds(ml, seeds, [(skip, k)], full=False, count=count)
+        return worlds, count
+    for i, ml in enumerate([[[t, 1]] for t in C04_START_CHAINS + C04_START_BRANCHED + C04_START_RINGS] + C04_START_MULTI):
+        worlds += c04_start_worlds(ml, seeds, None, count=count, offset=i)
+    for i, t in enumerate(C04_START_NAMED):
+        ml = [[t, 1]]
+        n = len(TYPES[t]["res"])
+        worlds += c04_start_worlds(ml, seeds, [([nm], k) for nm in _type_names(t) for k in range(1, n)], both_forms=False, count=count, offset=i)
+    return worlds, count
+
+
 def c04_ign_worlds(ml, ign, seeds, modes=("c", "mc"), extra=None):
     """-ign <ign>: the ignored molecules are supplied completely (the files are positional, so every residue before the last ignored
     molecule is supplied too or named with -res); every set of the other molecule types named for rebuilding, every prefix length
@@ -1327,6 +1409,9 @@ def run_c04(ctx, res):
     # ---- -c AND -mc: the witness worlds of the classes observed in the thorough tier (family (c) there)
     witness = c04_witness_worlds(seeds)
     worlds += witness
+    # ---- -start naming a residue of a partially supplied molecule
+    start_worlds, stc = c04_start_family(ctx, seeds)
+    worlds += start_worlds
     res.bound = (f"systems {C04_SYSTEMS} (<= 4 molecules, <= 4 residues each): EVERY split the file formats can express = every set of <= 2 residue names given to -res x "
                  f"{{-c (all atoms), -mc (centres)}} x every prefix length k >= 1 of the remaining residues in topology order (whole molecules and cut chains), {nseeds} seeds "
                  f"= {n_split} worlds; -ign W with W at every position of {len(ign_systems)} [molecules] lists, what precedes it supplied or named with -res = {n_ign} worlds; "
@@ -1335,8 +1420,14 @@ def run_c04(ctx, res):
                  "-c together with -mc is not a split (the second file re-reads from the first residue) and is otherwise exercised in C03 only; "
                  f"{len(witness)} witness worlds of it: [molecules] {C04_WITNESS_SYSTEM}, prefix lengths (k of -c, kmc of -mc) = {C04_WITNESS_PREFIXES}, no -res, 1 seed "
                  "(the thorough tier enumerates every pair of prefix lengths)")
+    st_classes = ", ".join(f"({c}) {C04_START_CLASSES[c]}: {stc.get(c, 0)}" for c in "abc")
+    if not ctx.thorough:
+        res.bound += (f"; START RESIDUE AMONG THE SUPPLIED ONES: splits (system, -res, k) = {C04_START_QUICK} (chain / branched / ring / 1-2-3-atom residues / second copy behind a solvent; "
+                      "the cut molecule keeps >= 2 supplied and >= 2 missing residues) x {-c, -mc} x one -start spec per class of named residue, spec forms '<molname>-<resname>#<resid>' and "
+                      f"'<molname>#<molidx>-<resname>#<resid>' alternating = {len(start_worlds)} worlds; named residue {st_classes}")
     res.rule = ("non-trivial iff distinct, finished, and the split has >= 1 supplied and >= 1 generated residue (for scripted worlds additionally >= 1 forced failure was reached)"
-                "; with -c AND -mc: non-trivial iff >= 2 of {atoms only, atoms and centre, centre only, neither} occur and not only the first two")
+                "; with -c AND -mc: non-trivial iff >= 2 of {atoms only, atoms and centre, centre only, neither} occur and not only the first two"
+                "; with -start additionally: the spec names a residue of a molecule that has >= 1 supplied and >= 1 generated residue")
     if ctx.thorough:
         deep_worlds, dc = c04_deep_worlds(ctx, seeds)
         worlds += deep_worlds
@@ -1350,7 +1441,12 @@ def run_c04(ctx, res):
                       f"[molecules] lines = {dc['ign-lists']} lists, {dc['ign']} worlds; "
                       f"(e) scripted failures on {dc['sched-systems']} partially supplied systems (chains of 8/10, branched, star, rings, solvents around, -ign, -res of inner residues, -c and -mc, -nr 1..5) x "
                       f"{dc['scheds']} schedules (none; every set of <= 2 failing events among the first 12; every 3 among the first 9; the first n = 4..12 events all fail; every 2nd/3rd/4th event fails, "
-                      f"each phase, up to event 24) x 3 seeds = {dc['sched']}")
+                      f"each phase, up to event 24) x 3 seeds = {dc['sched']}; "
+                      f"(f) START RESIDUE AMONG THE SUPPLIED ONES ({len(start_worlds)} worlds): one-molecule systems of chains {C04_START_CHAINS}, branched {C04_START_BRANCHED}, rings {C04_START_RINGS} "
+                      f"(4-8 residues) and {C04_START_MULTI}: every prefix length k >= 1 x {{-c, -mc}} x every molecule left partially supplied x -start naming EVERY residue of it x both spec forms "
+                      "('<molname>-<resname>#<resid>' = every molecule of that name, '<molname>#<molidx>-<resname>#<resid>'), seeds rotating; "
+                      f"+ {C04_START_NAMED} with -res <each single residue name> (supplied residues not a prefix of the molecule) x every k x {{-c, -mc}} x every residue, forms alternating; "
+                      f"named residue {st_classes}")
     res.exhaustive = True
     run_worlds("c04-supplied-preserved", worlds, res)
     res.assumptions.append("supplied coordinates come from an own lattice generator (3 decimals), inside the box of the input structure")
